@@ -176,7 +176,7 @@ impl World {
                 match catch(|| self.h.dial(p)) {
                     Ok(Ok(())) => ret = "ok".into(),
                     Ok(Err(e)) => {
-                        ret = "err".into();
+                        ret = if e.contains("ConnectionLimit") { "limit".into() } else { "err".into() };
                         stim["err"] = json!(e);
                     }
                     Err(_) => panic = true,
@@ -201,7 +201,7 @@ impl World {
                 match catch(|| self.h.dial_address(addr)) {
                     Ok(Ok(())) => ret = "ok".into(),
                     Ok(Err(e)) => {
-                        ret = "err".into();
+                        ret = if e.contains("ConnectionLimit") { "limit".into() } else { "err".into() };
                         stim["err"] = json!(e);
                     }
                     Err(_) => panic = true,
@@ -396,8 +396,41 @@ impl World {
         v
     }
 
+    /// capacity probe (C06): at quiescence a pending inbound socket and then a connection from a
+    /// peer we are not connected to are offered; below the limits both must be accepted. The
+    /// connection is closed again afterwards.
+    fn capacity_probe(&mut self, out: &mut Vec<String>) {
+        if self.outstanding() {
+            return;
+        }
+        let Some(peer) = self.peers.iter().map(|(n, _)| n.clone()).find(|n| !self.acc.values().any(|(p, _)| p == n)) else { return };
+        let mut push = |w: &mut World, s: Value| -> bool {
+            match w.apply(&s) {
+                Some(l) => {
+                    out.push(l.to_string());
+                    true
+                }
+                None => false,
+            }
+        };
+        if !push(self, json!({"a": "inbound"})) {
+            return;
+        }
+        let Some((&c, _)) = self.tx.iter().rev().find(|(_, t)| t.st == "in_neg") else { return };
+        if !push(self, json!({"a": "in_est", "c": c, "p": peer})) {
+            return;
+        }
+        if self.tx[&c].st == "accepting" && push(self, json!({"a": "accept_ok", "c": c})) {
+            push(self, json!({"a": "closed", "c": c}));
+        }
+        if !self.outstanding() {
+            out.push(json!({"e": "quiesce"}).to_string());
+        }
+    }
+
     /// wedge probe for every peer without an accepted connection (only at quiescence)
     fn probes(&mut self, out: &mut Vec<String>) {
+        self.capacity_probe(out);
         for (n, _) in self.peers.clone() {
             if self.acc.values().any(|(p, _)| p == &n) || self.outstanding() {
                 continue;
